@@ -222,6 +222,10 @@ type family struct {
 	combined string // where combined disruptive+flow actions may stand: "first" | "any"
 	markers  []int
 	detOnly  []int // marker positions also generated under DetectionOnly
+	// chainLens: lengths of the (single) chain a program may hold; nil = {2} on the four starter actions below.
+	// A family with chainLens set chains every action of its menu (the starter's disruptive and flow actions
+	// run only when every link matched - for every action, not only the four).
+	chainLens []int
 }
 
 var actionsEngine = []string{"pass", "allow", "allow:request", "allow:phase", "deny", "skip:1", "ctl:ruleEngine=On", "ctl:ruleEngine=DetectionOnly"}
@@ -237,9 +241,15 @@ func programs(thorough bool, emit func(p program)) {
 	// in force when they run (an allow seen in DetectionOnly is dropped for good)
 	engineFam := family{n: 3, phases: []int{1, 2, 5}, actions: actionsEngine, combined: "first", markers: []int{-1}, detOnly: []int{-1}}
 	fams = append(fams, engineFam)
+	// chains of 3 and 4 links (the property quantifies over chains of length 1-4): two slots, either one the chain,
+	// every action of the menu on the starter
+	longChains := family{n: 2, phases: []int{1, 2, 5}, actions: actionsQuick, combined: "any", markers: []int{-1, 0, 1, 2}, detOnly: []int{-1, 1}, chainLens: []int{3, 4}}
+	fams = append(fams, longChains)
 	if thorough {
+		longChains.n = 3
 		fams = []family{
 			engineFam,
+			longChains,
 			{n: 3, phases: []int{1, 2, 5}, actions: actionsQuick, combined: "any", markers: []int{-1, 0, 1, 2, 3}, detOnly: []int{-1, 0, 1, 2, 3}},
 			// all five phases with three slots
 			{n: 3, phases: []int{1, 2, 3, 4, 5}, actions: actionsQuick, combined: "first", markers: []int{-1, 0, 2}, detOnly: []int{-1}},
@@ -267,7 +277,16 @@ func programs(thorough bool, emit func(p program)) {
 						continue
 					}
 					rec(append(cur, slot{Phase: ph, Action: a, Chain: 1}), chained)
-					if !chained && (a == "deny" || a == "skip:1" || a == "allow" || a == "skipAfter:M1") {
+					if chained {
+						continue
+					}
+					if f.chainLens != nil {
+						if a != "pass" {
+							for _, n := range f.chainLens {
+								rec(append(cur, slot{Phase: ph, Action: a, Chain: n}), true)
+							}
+						}
+					} else if a == "deny" || a == "skip:1" || a == "allow" || a == "skipAfter:M1" {
 						rec(append(cur, slot{Phase: ph, Action: a, Chain: 2}), true)
 					}
 				}
